@@ -713,4 +713,208 @@ Proof.
   - apply andb_true_iff in T1. tauto.
 Qed.
 
+
+(** * The induction on fuel *)
+
+Definition Main (n : nat) : Prop := forall m e rho va s vs s', Hyp m e -> env_plain s ->
+  eval d n rho va e s = Ok vs s' -> store_extends s s' /\ lv_ok s s' (evaluate e) (first vs).
+Definition Main1 (n : nat) : Prop := forall m e rho va s v s', Hyp m e -> env_plain s ->
+  eval1 d n rho va e s = Ok v s' -> store_extends s s' /\ lv_ok s s' (evaluate e) v.
+Definition Fill (n : nat) : Prop := forall es rho va a pos s0 s u s',
+  Forall entry_hyp es -> env_plain s0 -> store_extends s0 s ->
+  (llen (tables s0) <= N.to_nat a)%nat -> plain_tab s a ->
+  fill_table d n rho va a es pos s = Ok u s' -> store_extends s0 s' /\ plain_tab s' a.
+
+Tactic Notation "binv" hyp(H) "as" ident(v) ident(s1) ident(Hv) :=
+  apply bind_ok in H; destruct H as (v & s1 & Hv & H); cbv beta in H.
+Ltac rinv H := apply ret_ok in H; destruct H as [? ?]; subst.
+
+Lemma main1_step n : Main n -> Main1 (S n).
+Proof.
+  intros IH m e rho va s v s' Hh He H. rewrite eval1_S in H. binv H as vs s1 Hv. rinv H.
+  eapply IH; eauto.
+Qed.
+
+Lemma fill_step n : Main n -> Main1 n -> Fill n -> Fill (S n).
+Proof.
+  intros IHm IH1 IHf es rho va a pos s0 s u s' Hes He0 Hext Hlen Hp H.
+  assert (forall e v s s1, HypP e -> store_extends s0 s -> plain_tab s a ->
+          eval1 d n rho va e s = Ok v s1 -> store_extends s0 s1 /\ plain_tab s1 a) as Hev.
+  { intros e v t t1 Hh Ht Hpt Hv.
+    destruct (IH1 false e rho va t v t1 Hh (env_plain_extends _ _ Ht He0) Hv) as [E _].
+    split; [eapply store_extends_trans; eauto|eapply plain_tab_extends; eauto]. }
+  destruct es as [|[f e|k e|e] rest].
+  - rewrite fill_S_nil in H. rinv H. auto.
+  - rewrite fill_S_field in H. binv H as v s1 Hv. binv H as u1 s2 Hput. destruct u1.
+    inversion Hes as [|? ? Hen Hrest]; subst. cbn in Hen.
+    destruct (Hev _ _ _ _ Hen Hext Hp Hv) as [E1 P1].
+    destruct (put_ok _ _ _ _ _ _ Hput E1 Hlen P1) as (E2 & P2 & _).
+    eapply IHf; eauto.
+  - rewrite fill_S_index in H. binv H as kv s1 Hkv. binv H as v s2 Hv. binv H as u1 s3 Hput. destruct u1.
+    inversion Hes as [|? ? Hen Hrest]; subst. cbn in Hen. destruct Hen as [Hk Hvv].
+    destruct (Hev _ _ _ _ Hk Hext Hp Hkv) as [E1 P1].
+    destruct (Hev _ _ _ _ Hvv E1 P1 Hv) as [E2 P2].
+    destruct (put_ok _ _ _ _ _ _ Hput E2 Hlen P2) as (E3 & P3 & _).
+    eapply IHf; eauto.
+  - inversion Hes as [|? ? Hen Hrest]; subst. cbn in Hen. destruct rest as [|x rest].
+    + rewrite fill_S_last in H. binv H as vs s1 Hv.
+      destruct (IHm false e rho va s vs s1 Hen (env_plain_extends _ _ Hext He0) Hv) as [E _].
+      assert (store_extends s0 s1) as E1 by (eapply store_extends_trans; eauto).
+      assert (plain_tab s1 a) as P1 by exact (plain_tab_extends _ _ _ E Hp).
+      destruct (fill_go_ok _ _ _ _ _ _ _ H E1 Hlen P1) as (E2 & P2 & _). auto.
+    + rewrite fill_S_value in H. binv H as v s1 Hv. binv H as u1 s2 Hput. destruct u1.
+      destruct (Hev _ _ _ _ Hen Hext Hp Hv) as [E1 P1].
+      destruct (put_pos_ok _ _ _ _ _ _ Hput E1 Hlen P1) as (E2 & P2 & _).
+      eapply IHf; eauto.
+Qed.
+
+Lemma compute_number_value x : compute_value x = number_value x /\ valid (compute_value x).
+Proof.
+  destruct x as [bits ex|i u [[e eu]|]|i u]; cbn [compute_value number_value].
+  - split; [reflexivity|apply valid_of_bits].
+  - split; [|apply valid_of_N]. f_equal. rewrite N.mul_mod_idemp_r; [reflexivity|discriminate].
+  - split; [reflexivity|apply valid_of_N].
+  - split; [reflexivity|apply valid_of_N].
+Qed.
+
+Lemma if_ok n m rho va els : Main1 n -> forall bs s vs s',
+  if_hyp m bs els -> env_plain s -> if_go d n rho va els bs s = Ok vs s' ->
+  store_extends s s' /\ lv_ok s s' (evaluate (EIf bs els)) (first vs).
+Proof.
+  intros IH1. induction bs as [|[c r] bs IH]; intros s vs s' Hh He H.
+  - rewrite if_go_nil in H. binv H as v s1 Hv. rinv H. rewrite evaluate_if_nil. cbn [first].
+    eapply IH1; eauto.
+  - rewrite if_go_cons in H. binv H as cv s1 Hcv. cbn [if_hyp] in Hh. destruct Hh as [Hc Hrest].
+    destruct (IH1 m c rho va s cv s1 Hc He Hcv) as [E1 L1].
+    pose proof (env_plain_extends _ _ E1 He) as He1.
+    rewrite evaluate_if_cons.
+    destruct (is_truthy (evaluate c)) as [[|]|] eqn:Et.
+    + rewrite (lv_ok_truthy _ _ _ _ _ L1 Et) in H. binv H as v s2 Hv. rinv H. cbn [first].
+      destruct (IH1 m r rho va s1 v _ Hrest He1 Hv) as [E2 L2].
+      split; [eapply store_extends_trans; eauto|].
+      eapply lv_ok_mono; [exact E1|apply store_extends_refl|exact L2].
+    + rewrite (lv_ok_truthy _ _ _ _ _ L1 Et) in H.
+      destruct (IH _ _ _ Hrest He1 H) as [E2 L2].
+      split; [eapply store_extends_trans; eauto|].
+      eapply lv_ok_mono; [exact E1|apply store_extends_refl|exact L2].
+    + destruct Hrest as [Hr Hrest]. split; [|exact I]. destruct (truthy cv).
+      * binv H as v s2 Hv. rinv H. destruct (IH1 m r rho va s1 v _ Hr He1 Hv) as [E2 _].
+        eapply store_extends_trans; eauto.
+      * destruct (IH _ _ _ Hrest He1 H) as [E2 _]. eapply store_extends_trans; eauto.
+Qed.
+
+Lemma interp_ok n m rho va : Main1 n -> forall segs acc s vs s',
+  Forall (seg_hyp m) segs -> env_plain s -> interp_go d n rho va segs acc s = Ok vs s' ->
+  store_extends s s' /\ lv_ok s s' (lv_interp_go segs acc) (first vs).
+Proof.
+  intros IH1. induction segs as [|[x|e] segs IH]; intros acc s vs s' Hh He H.
+  - rewrite interp_go_nil in H. rinv H. split; [apply store_extends_refl|reflexivity].
+  - rewrite interp_go_str in H. inversion Hh; subst. cbn [lv_interp_go]. eapply IH; eauto.
+  - rewrite interp_go_expr in H. binv H as v s1 Hv. binv H as sv s2 Hsv.
+    inversion Hh as [|? ? Hseg Hrest]; subst. cbn [seg_hyp] in Hseg. destruct Hseg as [Hhe Ke].
+    destruct (IH1 m e rho va s v s1 Hhe He Hv) as [E1 L1].
+    pose proof (env_plain_extends _ _ E1 He) as He1.
+    apply tostr_plain in Hsv as [-> ->]; [|apply He1|eapply lv_ok_plain; eauto].
+    destruct (IH _ _ _ _ Hrest He1 H) as [E2 L2].
+    split; [eapply store_extends_trans; eauto|].
+    cbn [lv_interp_go]. fold lv_interp_go.
+    destruct (evaluate e); destruct v; cbn in L1; try contradiction; try exact I;
+      try (destruct b; try contradiction);
+      try (subst; eapply lv_ok_mono; [exact E1|apply store_extends_refl|exact L2]).
+Qed.
+
+Lemma main_step n : Main1 n -> Fill n -> Main (S n).
+Proof.
+  intros IH1 IHf m e rho va s vs s' Hh He H.
+  destruct e.
+  - rewrite eval_S_nil in H. rinv H. split; [apply store_extends_refl|exact I].
+  - rewrite eval_S_true in H. rinv H. split; [apply store_extends_refl|exact I].
+  - rewrite eval_S_false in H. rinv H. split; [apply store_extends_refl|exact I].
+  - rewrite eval_S_number in H. rinv H. split; [apply store_extends_refl|].
+    cbn. destruct (compute_number_value n0) as [E V]. rewrite <- E. auto.
+  - rewrite eval_S_string in H. rinv H. split; [apply store_extends_refl|reflexivity].
+  - rewrite eval_S_interp in H. rewrite evaluate_interp. eapply (interp_ok n m); eauto. apply D_interp; exact Hh.
+  - rewrite eval_S_varargs in H. rinv H. split; [apply store_extends_refl|exact I].
+  - rewrite eval_S_ident in H. split; [|exact I]. destruct (lookup rho x).
+    + binv H as v s1 Hv. rinv H. apply get_cell_ok in Hv. subst. apply store_extends_refl.
+    + binv H as v s1 Hv. apply index_globals_plain in Hv; [|apply He]. subst s1.
+      destruct v; try (rinv H; apply store_extends_refl).
+      destruct (is_ext_name x); rinv H; apply store_extends_refl.
+  - exfalso. eapply D_bad_field; eauto.
+  - exfalso. eapply D_bad_index; eauto.
+  - exfalso. eapply D_bad_call; eauto.
+  - rewrite eval_S_function in H. binv H as c s1 Hc. rinv H.
+    apply new_closure_ok in Hc as (E & Ea & Ec & _). split; [exact E|].
+    cbn. rewrite Ec, app_length. cbn. lia.
+  - rewrite eval_S_if in H. eapply (if_ok n m); eauto. apply D_if; exact Hh.
+  - rewrite eval_S_paren in H. binv H as v s1 Hv. rinv H. cbn [first].
+    change (evaluate (EParen e)) with (evaluate e). eapply (IH1 m); eauto; eapply D_paren; eauto.
+  - assert (HypP (ETable entries)) as Hp.
+    { destruct m; [apply D_table_K|]; exact Hh. }
+    rewrite eval_S_table in H. binv H as a s1 Ha. binv H as u s2 Hf. rinv H.
+    apply new_table_ok in Ha as (E & Ea & Et).
+    assert (plain_tab s1 a) as P0.
+    { exists (mkTable [] None). split; [|reflexivity]. rewrite Et, Ea. apply nth_N_length. }
+    destruct (IHf _ _ _ _ _ s s1 _ _ (D_table _ Hp) He E (Nat.eq_le_incl _ _ (eq_sym Ea)) P0 Hf) as [E2 P2].
+    split; [exact E2|]. cbn. split; [lia|exact P2].
+  - rewrite eval_S_unary' in H. binv H as v s1 Hv. apply D_unop in Hh as [Hh K].
+    destruct (IH1 m e rho va s v s1 Hh He Hv) as [E1 L1].
+    pose proof (env_plain_extends _ _ E1 He) as He1.
+    apply (unop_ok _ _ _ _ _ _ _ _ L1 K (proj2 He1)) in H as [-> L].
+    rewrite evaluate_unop. auto.
+  - destruct (is_andor op) eqn:Hop.
+    + destruct op; try discriminate Hop.
+      * (* and *) rewrite eval_S_and in H. binv H as a s1 Ha. apply D_and in Hh as [Hl Hr].
+        destruct (IH1 m e1 rho va s a s1 Hl He Ha) as [E1 L1].
+        pose proof (env_plain_extends _ _ E1 He) as He1.
+        rewrite evaluate_and.
+        destruct (truthy a) eqn:Ta.
+        -- binv H as b s2 Hb. rinv H. cbn [first].
+           assert (is_truthy (evaluate e1) <> Some false) as Nf.
+           { intros Ef. rewrite (lv_ok_truthy _ _ _ _ _ L1 Ef) in Ta. discriminate. }
+           destruct (IH1 m e2 rho va s1 b _ (Hr Nf) He1 Hb) as [E2 L2].
+           split; [eapply store_extends_trans; eauto|].
+           destruct (is_truthy (evaluate e1)) as [[|]|]; [|congruence|exact I].
+           eapply lv_ok_mono; [exact E1|apply store_extends_refl|exact L2].
+        -- rinv H. cbn [first]. split; [exact E1|].
+           destruct (is_truthy (evaluate e1)) as [[|]|] eqn:Et; [|exact L1|exact I].
+           rewrite (lv_ok_truthy _ _ _ _ _ L1 Et) in Ta. discriminate.
+      * (* or *) rewrite eval_S_or in H. binv H as a s1 Ha. apply D_or in Hh as [Hl Hr].
+        destruct (IH1 m e1 rho va s a s1 Hl He Ha) as [E1 L1].
+        pose proof (env_plain_extends _ _ E1 He) as He1.
+        rewrite evaluate_or.
+        destruct (truthy a) eqn:Ta.
+        -- rinv H. cbn [first]. split; [exact E1|].
+           destruct (is_truthy (evaluate e1)) as [[|]|] eqn:Et; [exact L1| |exact I].
+           rewrite (lv_ok_truthy _ _ _ _ _ L1 Et) in Ta. discriminate.
+        -- binv H as b s2 Hb. rinv H. cbn [first].
+           assert (is_truthy (evaluate e1) <> Some true) as Nf.
+           { intros Ef. rewrite (lv_ok_truthy _ _ _ _ _ L1 Ef) in Ta. discriminate. }
+           destruct (IH1 m e2 rho va s1 b _ (Hr Nf) He1 Hb) as [E2 L2].
+           split; [eapply store_extends_trans; eauto|].
+           destruct (is_truthy (evaluate e1)) as [[|]|]; [congruence| |exact I].
+           eapply lv_ok_mono; [exact E1|apply store_extends_refl|exact L2].
+    + rewrite (eval_S_binop _ _ _ _ _ _ _ Hop) in H. binv H as a s1 Ha. binv H as b s2 Hb.
+      apply (D_binop _ _ _ _ Hop) in Hh as (Hl & Hr & Kl & Kr & Ho).
+      destruct (IH1 m e1 rho va s a s1 Hl He Ha) as [E1 L1].
+      pose proof (env_plain_extends _ _ E1 He) as He1.
+      destruct (IH1 m e2 rho va s1 b s2 Hr He1 Hb) as [E2 L2].
+      pose proof (env_plain_extends _ _ E2 He1) as He2.
+      destruct (binop_ok _ _ _ _ _ _ _ _ _ _ _ Hop L1 L2 Kl Kr E1 E2 (proj2 He2) Ho H) as [-> L].
+      rewrite (evaluate_binop _ _ _ Hop).
+      split; [eapply store_extends_trans; eauto|exact L].
+  - rewrite eval_S_typecast in H. binv H as v s1 Hv. rinv H. cbn [first].
+    change (evaluate (ETypeCast e t)) with (evaluate e). eapply (IH1 m); eauto; eapply D_typecast; eauto.
+  - rewrite eval_S_typeinst in H. binv H as v s1 Hv. rinv H. cbn [first].
+    destruct (IH1 m e rho va s v _ (D_typeinst _ _ _ Hh) He Hv) as [E1 L1].
+    split; [exact E1|]. destruct (typeinst_lv e tys) as [-> | ->]; [exact L1|exact I].
+Qed.
+
+Theorem main_all : forall n, Main n /\ Main1 n /\ Fill n.
+Proof.
+  induction n as [|n (IHm & IH1 & IHf)].
+  - unfold Main, Main1, Fill. repeat split; intros; discriminate.
+  - split; [apply main_step; auto|]. split; [apply main1_step; auto|apply fill_step; auto].
+Qed.
+
 End Inv.
